@@ -357,30 +357,90 @@ def callback_exit(rec, F):
 
 
 def ip_minus_one(rec, F):
-    R = rec.rule("F10.line", "both ip->line translations (print_error traceback, error_backtrace) subtract one from the return-address offset before get_line")
+    R = rec.rule("F10.line", "every ip->line translation in the fiber's error reporting (print_error traceback, error_backtrace, helpers) hands Chunk::get_line the return-address offset minus one: `ip.offset_from(instructions) - 1` reaches get_line, computed next to it or passed in through parameters from every caller")
+    FIB = "laythe_vm::fiber"
+
+    def good(s):
+        return ("saturating_sub" in s or "'Sub" in s) and "offset_from" in s and "('const', 1)" in s
+
+    def arg_ok(f, o, depth=0):
+        """the operand is (ip offset - 1): here, or it is a parameter and every caller passes such a value"""
+        s = str(sem.desc_operand(f, o))
+        if good(s):
+            return True, "computed in %s" % f.name
+        if depth > 3:
+            return False, "?"
+        # which parameters feed it
+        params = sorted(set(int(x) for x in re.findall(r"\('arg', (\d+)\)", s)))
+        # closure bodies receive their values as arguments of the adaptor that runs them: look at the enclosing function
+        callers = [(c, bi) for c, bi in F.callers.get(f.path, [])]
+        if f.kind == "Closure" or not params or not callers:
+            return False, "offset is %s" % s[:80]
+        # it may be ip and the -1 applied to a derived value: accept when the chain offset_from .. -1 is split across the call
+        for c, bi in callers:
+            t = c.blocks[bi]["t"]
+            oks = []
+            for pi in params:
+                if pi - 1 < len(t["args"]):
+                    okc, _ = arg_ok(c, t["args"][pi - 1], depth + 1)
+                    oks.append(okc)
+            if not any(oks):
+                # the callee subtracts and the caller provides the raw ip: combine both descriptions
+                joined = s + " ".join(str(sem.desc_operand(c, a_)) for a_ in t["args"])
+                if not good(joined):
+                    return False, "caller %s passes a value that is not (ip offset - 1)" % c.name
+        return True, "through parameters of %s" % f.name
     n = 0
+    seen = set()
+    roots = []
     for fname in ("print_error", "error_backtrace"):
         fn = F.fn("laythe_vm::fiber::Fiber::" + fname)
         if fn is None:
             rec.anchor_lost("F10.line", "Fiber::" + fname)
             continue
-        ok = False
-        for f in body_and_closures(F, fn):
-            for bi, t in f.calls():
-                if lastseg(t["f"]) in ("get_line", "frame_line"):
-                    d = sem.desc_operand(f, t["args"][-1])
-                    s = str(d)
-                    ok = ("saturating_sub" in s or "'Sub" in s) and "offset_from" in s and "('const', 1)" in s
-                    n += 1
-        rec.inst(R, fname, ok=ok, loc=fn.loc)
+        roots.append(fn)
+    # every get_line call reachable from the two reporting functions (same crate, two levels)
+    work = [(r_, 0) for r_ in roots]
+    sites = []
+    while work:
+        f, d = work.pop()
+        if f.path in seen:
+            continue
+        seen.add(f.path)
+        for body in body_and_closures(F, f):
+            for bi, t in body.calls():
+                if lastseg(t["f"]) == "get_line" and "Chunk" in t["f"]:
+                    sites.append((body, bi, t))
+                elif d < 2 and t["f"].startswith(FIB):
+                    g = F.fn(t["f"])
+                    if g is not None:
+                        work.append((g, d + 1))
+    for body, bi, t in sites:
+        n += 1
+        ok, how = arg_ok(body, t["args"][-1])
+        who = body.name if body.kind != "Closure" else body.path.split("::")[-2]
+        rec.inst(R, "%s: get_line(ip offset - 1)" % who, ok=ok, loc=loc_of(t["sp"]), note=how)
         if not ok:
-            rec.finding(R, "F10.line/%s" % fname, "Fiber::%s does not translate (ip offset - 1) to a line: the reported line is that of the next instruction" % fname, loc=fn.loc, fn=fn.path)
-    fl = F.find1(r"laythe_vm::fiber::frame_line$")
-    if fl is not None:
-        ok = any(lastseg(t["f"]) == "get_line" and fl.root_of(t["args"][-1])[0] == "arg" for _, t in fl.calls())
-        rec.inst(R, "frame_line:get_line(offset)", ok=ok, loc=fl.loc)
-        if not ok:
-            rec.finding(R, "F10.line/frame_line", "frame_line does not pass its offset argument unchanged to get_line", loc=fl.loc, fn=fl.path)
+            rec.finding(R, "F10.line/%s" % who, "%s translates an instruction pointer to a line without subtracting one from its offset (%s): the ip of a frame is a return address, so the reported line is that of the next instruction" % (who, how), loc=loc_of(t["sp"]), fn=body.path)
+    rec.floor(R, "ip->line translations in error reporting", n, 2)
+    # frames and instruction pointers are paired position by position: the recorded ips belong to the innermost frames,
+    # the remaining frames use their own - appended to the recorded ones only after skipping as many frames
+    for f in roots:
+        for body in body_and_closures(F, f):
+            for bi, t in body.calls():
+                if lastseg(t.get("decl") or t["f"]) != "chain" or len(t["args"]) < 2:
+                    continue
+                n0, f0, _ = sem.adaptor_chain(body, t["args"][0])
+                n1, f1, x1 = sem.adaptor_chain(body, t["args"][1])
+                if "backtrace_ips" in f0 and "frames" in f1:
+                    skipped_by = set()
+                    for xo in x1:
+                        nx, fx, _ = sem.adaptor_chain(body, xo)
+                        skipped_by |= fx
+                    ok = "skip" in n1 and "backtrace_ips" in skipped_by
+                    rec.inst(R, "%s: own ips of the frames after the recorded ones" % f.name, ok=ok, loc=loc_of(t["sp"]))
+                    if not ok:
+                        rec.finding(R, "F10.line/%s/ip-pairing" % f.name, "Fiber::%s appends the frames' own instruction pointers to the recorded ones without skipping the frames the recorded ones belong to: frame k+j is reported with the ip of frame j (wrong lines, or an offset outside the function's chunk)" % f.name, loc=loc_of(t["sp"]), fn=body.path)
 
 
 # ---------------------------------------------------------------------------
